@@ -90,15 +90,15 @@ TTamper ==
     /\ cwire' = e.wire /\ UNCHANGED <<csprior, cspend, crprior, crpend, cdead>> /\ Adv
 TBenign ==
     /\ e.op = "benign" /\ Benign(e.what)
-    /\ Check(t, l, "EnvBenignKeepsAuth", SameAuth(TRUE, cwire, e.wire) /\ e.wire # cwire)
+    /\ Check(t, l, "EnvBenignKeepsAuth", (ParseMsg(cwire).ok /\ ParseMsg(cwire).tsig = "last") => (SameAuth(TRUE, cwire, e.wire) /\ e.wire # cwire))
     /\ cwire' = e.wire /\ UNCHANGED <<csprior, cspend, crprior, crpend, cdead>> /\ Adv
 TMove ==
     /\ e.op = "move" /\ MoveTsig
-    /\ Check(t, l, "EnvMoved", ParseMsg(e.wire).ok /\ ParseMsg(e.wire).tsig = "misplaced")
+    /\ Check(t, l, "EnvMoved", (ParseMsg(cwire).ok /\ ParseMsg(cwire).tsig = "last") => (ParseMsg(e.wire).ok /\ ParseMsg(e.wire).tsig = "misplaced"))
     /\ cwire' = e.wire /\ UNCHANGED <<csprior, cspend, crprior, crpend, cdead>> /\ Adv
 TStrip ==
     /\ e.op = "strip" /\ StripTsig
-    /\ Check(t, l, "EnvStripped", ParseMsg(e.wire).ok /\ ParseMsg(e.wire).tsig = "none")
+    /\ Check(t, l, "EnvStripped", (ParseMsg(cwire).ok /\ ParseMsg(cwire).tsig = "last") => (ParseMsg(e.wire).ok /\ ParseMsg(e.wire).tsig = "none"))
     /\ cwire' = e.wire /\ UNCHANGED <<csprior, cspend, crprior, crpend, cdead>> /\ Adv
 TConfig ==
     /\ e.op = "cfault" /\ ConfigFault(e.what)
